@@ -8,7 +8,10 @@
    The driver only parses the kernel expression and composes the extracted combinators (values k_*, b_*, coded
    gradients g_xxx, p_xxx); it contains no kernel arithmetic of its own (it only counts the parameters).
    WI = wid (coded weightedInputDerivative), WP = wpdv (coded weightedParameterDerivative, whole parameter vector),
-   WP1 = wpd (one-parameter leaves); a field is absent when the modelled class has no such derivative. *)
+   WP1 = wpd (one-parameter leaves); a field is absent when the modelled class has no such derivative.
+   SE/BE = den / bden of the same expression as a C05Expr.kexp value; MX = C05Blocks.gram_mixed (calculateMixedKernelMatrix,
+   X1 in the given partition, X2 in batches of 2 as in the harness); KD = C05Blocks.kmpd (calculateKernelMatrixParameterDerivative
+   over the partitioned X1 with the symmetric weights CS(i,j) = C(i, j mod n2) + C(j, i mod n2) that the harness builds). *)
 open C05_model
 
 let rec nat_of_int n = if n <= 0 then O else S (nat_of_int (n - 1))
@@ -90,6 +93,7 @@ let split_groups toks =
 let rec take n l = if n = 0 then [] else match l with [] -> failwith "short" | x :: r -> x :: take (n - 1) r
 let rec drop n l = if n = 0 then l else match l with [] -> failwith "short" | _ :: r -> drop (n - 1) r
 let rec chunks n l = if l = [] then [] else take n l :: chunks n (drop n l)
+let rec chunks2 l = match l with [] -> [] | [x] -> [[x]] | x :: y :: r -> [x; y] :: chunks2 r
 let rec split_sizes sz l = match sz with [] -> [] | s :: r -> take s l :: split_sizes r (drop s l)
 
 module Make (A : ARITH) = struct
@@ -102,6 +106,7 @@ module Make (A : ARITH) = struct
     g : (vec -> vec -> vec) option;          (* coded input gradient per pair of points (None: the class has none) *)
     p1 : (vec -> vec -> A.t) option;         (* one-parameter leaves: the scalar derivative (for wpd) *)
     pv : (int * (vec -> vec -> vec)) option; (* number of parameters, coded gradient w.r.t. the parameter vector per pair *)
+    e : A.t kexp;                            (* the same expression as a value of C05Expr.kexp: den e / bden e are printed as SE / BE *)
   }
   let toks = ref ([] : string list)
   let next () = match !toks with [] -> failwith "spec" | t :: r -> toks := r; t
@@ -109,7 +114,7 @@ module Make (A : ARITH) = struct
   let all_some f l = if List.for_all (fun b -> f b <> None) l then Some (List.map (fun b -> match f b with Some v -> v | None -> assert false) l) else None
   let rec parse dim : node =
     match next () with
-    | "LIN" -> { k = k_lin zero add mul; bk = b_lin zero add mul; normalized = false; g = Some g_lin; p1 = None; pv = Some (0, p_none) }
+    | "LIN" -> { k = k_lin zero add mul; bk = b_lin zero add mul; normalized = false; g = Some g_lin; p1 = None; pv = Some (0, p_none); e = ELin }
     | "POLY" ->
       let d = nexti () in let c = A.parse (next ()) in let dp = next () = "1" in let un = next () = "1" in
       let d' = nat_of_int d in
@@ -118,27 +123,27 @@ module Make (A : ARITH) = struct
         g = Some (g_poly zero one add mul div isz d' c);
         p1 = if dp || un then None else Some p;
         (* unconstrained encoding: offset = exp(parameter), the coded gradient is multiplied by the offset *)
-        pv = if dp then None else Some (1, if un then g_scaled mul c (p_one p) else p_one p) }
+        pv = if dp then None else Some (1, if un then g_scaled mul c (p_one p) else p_one p); e = EPoly (d', c) }
     | "MONO" -> let d' = nat_of_int (nexti ()) in
       { k = k_mono zero one add mul d'; bk = b_mono zero one add mul d'; normalized = false;
-        g = Some (g_mono zero one add mul div isz d'); p1 = None; pv = Some (0, p_none) }
+        g = Some (g_mono zero one add mul div isz d'); p1 = None; pv = Some (0, p_none); e = EMono d' }
     | "RBF" -> let gm = A.parse (next ()) in let un = next () = "1" in
       let p = p_gauss zero add mul sub opp exp gm in
       { k = k_gauss zero add mul sub opp exp gm; bk = b_gauss zero add mul sub opp exp gm; normalized = true;
         g = Some (g_gauss zero one add mul sub opp exp gm);
         p1 = if un then None else Some p;
-        pv = Some (1, if un then g_scaled mul gm (p_one p) else p_one p) }
+        pv = Some (1, if un then g_scaled mul gm (p_one p) else p_one p); e = ERbf gm }
     | "ARD" -> let gs = List.init dim (fun _ -> A.parse (next ())) in
       { k = k_ard zero add mul sub opp exp gs; bk = b_ard zero add mul sub opp exp gs; normalized = true;
-        g = Some (g_ard zero one add mul sub opp exp gs); p1 = None; pv = Some (dim, p_ard zero add mul sub opp exp gs) }
+        g = Some (g_ard zero one add mul sub opp exp gs); p1 = None; pv = Some (dim, p_ard zero add mul sub opp exp gs); e = EArd gs }
     | "NORM" -> let b = parse dim in
       { k = k_norm div sqrt b.k; bk = b_norm zero mul div sqrt b.bk; normalized = true;
         g = (match b.g with Some g -> Some (g_norm one add mul div opp sqrt b.k g) | None -> None); p1 = None;
-        pv = (match b.pv with Some (m, p) -> Some (m, p_norm one add mul div opp sqrt b.k p) | None -> None) }
+        pv = (match b.pv with Some (m, p) -> Some (m, p_norm one add mul div opp sqrt b.k p) | None -> None); e = ENorm b.e }
     | "SCALED" -> let f = A.parse (next ()) in let b = parse dim in
       { k = k_scaled mul f b.k; bk = b_scaled mul f b.bk; normalized = false;
         g = (match b.g with Some g -> Some (g_scaled mul f g) | None -> None); p1 = None;
-        pv = (match b.pv with Some (m, p) -> Some (m, g_scaled mul f p) | None -> None) }
+        pv = (match b.pv with Some (m, p) -> Some (m, g_scaled mul f p) | None -> None); e = EScaled (f, b.e) }
     | "WSUM" ->
       let n = nexti () in
       let lw = List.init (n - 1) (fun _ -> A.parse (next ())) in
@@ -148,7 +153,7 @@ module Make (A : ARITH) = struct
     | "PROD" -> let n = nexti () in let ks = List.init n (fun _ -> parse dim) in
       (* ProductKernel: no coded derivative *)
       { k = k_prod one mul (List.map (fun b -> b.k) ks); bk = b_prod one mul (List.map (fun b -> b.bk) ks);
-        normalized = List.for_all (fun b -> b.normalized) ks; g = None; p1 = None; pv = None }
+        normalized = List.for_all (fun b -> b.normalized) ks; g = None; p1 = None; pv = None; e = EProd (List.map (fun b -> b.e) ks) }
     | "SUBR" ->
       let n = nexti () in
       let ks = List.init n (fun _ ->
@@ -156,7 +161,7 @@ module Make (A : ARITH) = struct
         let a' = nat_of_int a and b' = nat_of_int b in
         { k = k_sub a' b' inner.k; bk = b_sub a' b' inner.bk; normalized = false;
           g = (match inner.g with Some g -> Some (g_sub zero (nat_of_int dim) a' b' g) | None -> None); p1 = None;
-          pv = (match inner.pv with Some (m, p) -> Some (m, p_sub a' b' p) | None -> None) }) in
+          pv = (match inner.pv with Some (m, p) -> Some (m, p_sub a' b' p) | None -> None); e = ESub (a', b', inner.e) }) in
       wsum dim (List.map (fun _ -> one) ks) ks
     | "MODEL" ->
       let m = nexti () in
@@ -168,7 +173,7 @@ module Make (A : ARITH) = struct
       { k = k_pull f inner.k; bk = b_pull f inner.bk; normalized = false; g = None; p1 = None;
         pv = (match inner.g, inner.pv with
               | Some g, Some (mk, p) -> Some (mk + m * dim + m, p_model zero add mul w b g p)
-              | _ -> None) }
+              | _ -> None); e = EModel (w, b, inner.e) }
     | s -> failwith ("kernel " ^ s)
   and wsum dim ws ks =
     { k = k_wsum zero add mul div (List.combine ws (List.map (fun b -> b.k) ks));
@@ -181,7 +186,8 @@ module Make (A : ARITH) = struct
       pv = (match all_some (fun b -> b.pv) ks with
             | Some ps -> Some (List.length ks - 1 + List.fold_left (fun s (m, _) -> s + m) 0 ps,
                                p_wsum zero add mul sub div (List.combine ws (List.combine (List.map (fun b -> b.k) ks) (List.map snd ps))))
-            | None -> None) }
+            | None -> None);
+      e = EWsum (ws, List.map (fun b -> b.e) ks) }
 
   let mstr m = String.concat "," (List.map A.show (List.concat m))
   let field k v = k ^ "=" ^ v
@@ -197,7 +203,8 @@ module Make (A : ARITH) = struct
       field "SD" (mstr (mk (single_via_batch zero bk) x1 x2));
       field "D1" (mstr [List.map (fun x -> k x x) x1]);
       field "FD" (mstr (mk (feat_dist one add mul sub normalized k) x1 x2));
-      field "G" (mstr (gram_reg add bk reg d)) ]
+      field "G" (mstr (gram_reg add bk reg d));
+      field "MX" (mstr (gram_mixed bk d (chunks2 x2))) ]
 
   let handle line =
     let g = split_groups (List.filter (fun x -> x <> "") (String.split_on_char ' ' line)) in
@@ -212,7 +219,17 @@ module Make (A : ARITH) = struct
       let wi = match nd.g with Some g -> [field "WI" (mstr (wid zero add mul (nat_of_int dim) g c x1 x2))] | None -> [] in
       let wp = match nd.pv with Some (m, p) -> [field "WP" (mstr [wpdv zero add mul (nat_of_int m) p c x1 x2])] | None -> [] in
       let wp1 = match nd.p1 with Some p -> [field "WP1" (A.show (wpd zero add mul p c x1 x2))] | None -> [] in
-      String.concat " " (A.tag :: base @ wi @ wp @ wp1)
+      (* the same kernel through the expression data type of C05Expr.v *)
+      let kd = match nd.pv with
+        | Some (m, p) when x2 <> [] ->
+          let n1 = List.length x1 and n2 = List.length x2 in
+          let ce i j = List.nth (List.nth c i) (j mod n2) in
+          let cs = List.init n1 (fun i -> List.init n1 (fun j -> add (ce i j) (ce j i))) in
+          [field "KD" (mstr [kmpd zero one add mul (wpdv zero add mul (nat_of_int m) p) cs (nat_of_int m) (split_sizes parts x1)])]
+        | _ -> [] in
+      let ex = kd @ [field "SE" (mstr (mk (den zero one add mul sub div opp sqrt exp nd.e) x1 x2));
+                field "BE" (mstr (bden zero one add mul sub div opp sqrt exp nd.e x1 x2))] in
+      String.concat " " (A.tag :: base @ wi @ wp @ wp1 @ ex)
     | ("D" :: ns :: _) :: tab :: p1 :: p2 :: parts :: [reg] :: _ ->
       let n = int_of_string ns in
       let t = chunks n (List.map A.parse tab) in
@@ -248,6 +265,18 @@ module Make (A : ARITH) = struct
       let k = k_wsum zero add mul div (List.combine ws ks) and bk = b_wsum zero add mul div (List.combine ws bs) in
       let parts = List.map int_of_string parts in
       String.concat " " (A.tag :: common k bk false x1 x2 parts zero)
+    | ("T" :: dims :: nts :: _) :: spec :: [gm] :: pts :: _ ->
+      (* GaussianTaskKernel table (C05Task.gt_matrix) and MultiTaskKernel (C05Task.k_mtask) over the multi-task data *)
+      let dim = int_of_string dims and nt = int_of_string nts in
+      toks := spec; let nd = parse dim in
+      let n = int_of_string (List.hd pts) in
+      let rec rd n l = if n = 0 then [] else
+        let v = List.map A.parse (take dim l) in let l = drop dim l in
+        (v, nat_of_int (int_of_string (List.hd l))) :: rd (n - 1) (List.tl l) in
+      let data = rd n (List.tl pts) in
+      let tbl = gt_matrix zero one add mul sub div opp exp nd.k (A.parse gm) data (nat_of_int nt) in
+      String.concat " " [A.tag; field "TK" (mstr tbl); field "KI" (mstr (mk nd.k (List.map fst data) (List.map fst data)));
+                         field "MT" (mstr (mk (k_mtask zero one mul nd.k tbl) data data))]
     | _ -> "?"
 end
 
